@@ -696,6 +696,11 @@ func (hs *clientHandshakeState) readFinished(out []byte) error {
 		c.sendAlert(alertHandshakeFailure)
 		return errors.New("tls: server's Finished message was incorrect")
 	}
+	if c.hand.Len() > 0 {
+		// nothing may follow the peer's Finished in a handshake
+		c.sendAlert(alertUnexpectedMessage)
+		return errors.New("tls: handshake data after the server's Finished message")
+	}
 	hs.finishedHash.Write(serverFinished.marshal())
 	copy(out, verify)
 	return nil
